@@ -2,7 +2,7 @@ INIT Init
 NEXT Next
 CONSTANT Mode = "c08"
 CONSTANT PartN = 4
-CONSTANT PartSubN = 0
+CONSTANT PartSubN = 2
 CONSTANT OneFileN = 0
 CONSTANT MachN = 3
 CONSTANT ProgN = 0
